@@ -927,7 +927,10 @@ func specialize(r *rng, p *plan.Plan, focus, arm string) {
 			}
 		}
 		for i := range rp.Conns {
-			rp.Conns[i].ClientCert = []string{"", "good", "otherca"}[r.intn(3)]
+			rp.Conns[i].ClientCert = []string{"", "good", "otherca", "", "otherca", "plain"}[r.intn(6)]
+			if rp.Conns[i].ClientCert != "good" && r.p(0.4) {
+				rp.Conns[i].PlainAfterFail = true
+			}
 		}
 	case "C07", "C08", "C19":
 		genCacheOps(r, p, focus, arm)
